@@ -507,12 +507,20 @@ impl Runner {
     }
 
     /// Quiescence barrier; collects the events of every pass and polls reload ids after every pass.
-    pub fn barrier(&mut self) {
+    /// Returns `false` if the sentinel's notified change was never applied (a lost reload): in hot_reload()
+    /// mode after 4000 complete request/answer round trips that all started after the notification was sent;
+    /// in enhance_hot_reloading mode when the reloader thread is asleep with zero CPU over three spaced samples.
+    #[must_use]
+    pub fn barrier(&mut self) -> bool {
         self.passes.clear();
+        let mut rounds = 0u64;
+        let mut idle_samples = 0u32;
+        let mut last_sample: Option<(std::time::Instant, u64)> = None;
+        let mut lost = false;
         let w = &mut self.world;
         let before = w.cache.get_cached::<world::Leaf>(SENTINEL).expect("sentinel").last_reload_id();
         let version = w.barrier_calls + 1_000_000;
-        w.src.tree().put(SENTINEL, "la", format!("ok:{version}").into_bytes(), Variant::Buffer);
+        w.src.tree().put(SENTINEL, "la", format!("ok:S{version}").into_bytes(), Variant::Buffer);
         w.src.send(&OwnedEntry::File(SENTINEL.to_string(), "la".to_string()));
         loop {
             if !self.world.static_mode {
@@ -529,6 +537,35 @@ impl Runner {
             let now = self.world.cache.get_cached::<world::Leaf>(SENTINEL).expect("sentinel").last_reload_id();
             if now != before {
                 break;
+            }
+            rounds += 1;
+            if !self.world.static_mode {
+                if rounds > 4000 {
+                    lost = true;
+                    break;
+                }
+            } else if rounds % 64 == 0 {
+                // is the reloader thread asleep without having consumed any CPU since the last sample?
+                let me = crate::procfs::self_threads();
+                let st: Vec<_> = me.iter().filter(|t| t.comm.starts_with("assets_hot_relo")).collect();
+                let all_asleep = !st.is_empty() && st.iter().all(|t| t.state == 'S');
+                let ticks: u64 = st.iter().map(|t| t.ticks).sum();
+                match last_sample {
+                    Some((t0, ticks0)) if all_asleep && ticks0 == ticks => {
+                        if t0.elapsed() >= std::time::Duration::from_millis(300) {
+                            idle_samples += 1;
+                            last_sample = Some((std::time::Instant::now(), ticks));
+                        }
+                    }
+                    _ => {
+                        idle_samples = 0;
+                        last_sample = Some((std::time::Instant::now(), ticks));
+                    }
+                }
+                if idle_samples >= 3 {
+                    lost = true;
+                    break;
+                }
             }
         }
         // (enhance_hot_reloading mode) the sentinel may have been rewritten between the poll and the test above
@@ -555,6 +592,7 @@ impl Runner {
         self.refresh_watches();
         let reloaded: BTreeSet<AKey> = self.watches.iter().filter(|(_, w)| w.growths > 0).map(|(k, _)| k.clone()).collect();
         self.world.sync_analytic(&self.cached(), &reloaded);
+        !lost
     }
 
     pub fn all_events(&self) -> impl Iterator<Item = &Ev> {
@@ -672,23 +710,7 @@ pub fn check_convergence(r: &Runner, out: &mut Outcome, step_no: usize, grew: &B
                         out.excluded += 1;
                         continue;
                     }
-                    // known finding D11: the asset (or one it depends on) learned a *new* dependency in this step and that
-                    // dependency was itself reloaded in the same step (the reload order was computed before the new edge existed)
-                    let empty = BTreeSet::new();
-                    let learned_late = |k: &AKey| -> bool {
-                        let before = deps_before.get(&(tag, k.clone())).unwrap_or(&empty);
-                        deps_now.get(&(tag, k.clone())).map_or(false, |now| {
-                            now.iter().any(|d| match d {
-                                Dep::Asset(dk, di) if !before.contains(d) => {
-                                    let start = (*dk, di.clone());
-                                    grew.get(&start).copied().unwrap_or(0) > 0 || grew.iter().any(|(g, n)| *n > 0 && depends_on(&deps_now, tag, &start, g))
-                                }
-                                _ => false,
-                            })
-                        })
-                    };
-                    let new_dep_reloaded = learned_late(&key)
-                        || deps_now.keys().any(|(t, k)| *t == tag && k != &key && learned_late(k) && depends_on(&deps_now, tag, &key, k));
+                    let new_dep_reloaded = explained_by_d11(r, &key, deps_before, &deps_now, grew);
                     let sig = if new_dep_reloaded { "new-dependency-reloaded-in-same-batch" } else { "not-converged" };
                     out.fail(
                         sig,
@@ -716,6 +738,27 @@ pub fn check_convergence(r: &Runner, out: &mut Outcome, step_no: usize, grew: &B
         }
     }
     checked
+}
+
+/// Known finding D11: the asset (or one it depends on) learned a *new* dependency in this step - or was loaded
+/// for the first time in it - and that dependency was itself reloaded in the same step (the reload order was
+/// computed before the new edge existed).
+pub fn explained_by_d11(r: &Runner, key: &AKey, deps_before: &HashMap<(u32, AKey), BTreeSet<Dep>>, deps_now: &HashMap<(u32, AKey), BTreeSet<Dep>>, grew: &BTreeMap<AKey, u32>) -> bool {
+    let tag = r.world.tag;
+    let empty = BTreeSet::new();
+    let learned_late = |k: &AKey| -> bool {
+        let before = deps_before.get(&(tag, k.clone())).unwrap_or(&empty);
+        deps_now.get(&(tag, k.clone())).map_or(false, |now| {
+            now.iter().any(|d| match d {
+                Dep::Asset(dk, di) if !before.contains(d) => {
+                    let start = (*dk, di.clone());
+                    grew.get(&start).copied().unwrap_or(0) > 0 || grew.iter().any(|(g, n)| *n > 0 && depends_on(deps_now, tag, &start, g))
+                }
+                _ => false,
+            })
+        })
+    };
+    learned_late(key) || deps_now.keys().any(|(t, k)| *t == tag && k != key && learned_late(k) && depends_on(deps_now, tag, key, k))
 }
 
 /// Dependencies-before-dependents inside every pass (hot_reload mode).
